@@ -5,6 +5,11 @@ pid, tag = sys.argv[1], sys.argv[2]
 p = [json.loads(l) for l in open('/verif/properties.jsonl') if json.loads(l)['id'] == pid][0]
 wt = '/tmp/seed_wt_%s_%s' % (pid, tag)
 out = '/tmp/seed_out_%s_%s' % (pid, tag)
+import glob
+prev = []
+for f in sorted(glob.glob("/verif/seeded/%s-*/meta.json" % pid)):
+    prev.append(json.load(open(f)).get("summary", "")[:400])
+AVOID = ("Ideas that were ALREADY used for this property and must NOT be repeated (choose a different mechanism, a different function, and a different kind of trigger):\n" + "\n".join("- " + x for x in prev) + "\n\n") if prev else ""
 print(f"""You are helping to evaluate a verification framework for the Python library flamapy/fm_metamodel (a feature-model metamodel with readers/writers and analysis operations).
 
 Your job: produce ONE realistic, subtle code change (a "seeded defect") to the library that BREAKS the semantic property below, while the library still imports fine and its existing test suite still passes.
@@ -30,4 +35,4 @@ Deliverables, all written into the directory {out} (create it):
 1. patch.diff  - output of `git -C {wt} diff` for your change (apply-able with `git apply` at the library root).
 2. demo.py     - a small stand-alone script that exits 0 (prints PASS) on the ORIGINAL code and exits 1 (prints FAIL and why) with your change applied. It must only use the library's public API. It is run as: cd <lib root> && PYTHONPATH=<lib root> /venv/bin/python demo.py
 3. meta.json   - {{"property": "{p['id']}", "summary": "...what was changed...", "needs": "...what specific input/sequence is needed to manifest...", "why_tests_pass": "..."}}
-Before finishing, verify yourself: (a) with the change, the 144 tests pass and demo.py exits 1; (b) after `git -C {wt} stash` (original code), demo.py exits 0; then `git -C {wt} stash pop` to leave the change applied. Report briefly what you did.""")
+{AVOID}Before finishing, verify yourself: (a) with the change, the 144 tests pass and demo.py exits 1; (b) after `git -C {wt} stash` (original code), demo.py exits 0; then `git -C {wt} stash pop` to leave the change applied. Report briefly what you did.""")
